@@ -573,3 +573,27 @@ package saml
 //@    RegistryHas(idp.ServiceProviderProvider, serviceProviderID, rq.ServiceProviderMetadata) && rq.RelayState == relayState
 //@ loop 1 vars req *IdpAuthnRequest
 //@ invariant[C05] not_yet: req.ACSEndpoint == nil
+
+//@ -- ------------------------------------------------------------------------------------------
+//@ -- C12 / C13: SP outbound messages
+//@ import url "net/url"
+//@ import strings "strings"
+
+//@ go func redirectBase(raw string) string { if len(raw) > 0 { return raw + "&" }; return "" }
+//@ go func redirectQuery(raw string, req string, relayState string) string {
+//@    q := redirectBase(raw) + "SAMLRequest=" + url.QueryEscape(req)
+//@    if relayState != "" { q += "&RelayState=" + url.QueryEscape(relayState) }
+//@    return q }
+
+//@ contract (*AuthnRequest).Redirect
+//@ requires[cfg] sp: sp != nil && (len(sp.SignatureMethod) == 0 || sp.Certificate != nil)
+//@ ensures[C12,C09] nil_iff_err: (result == nil) == (err != nil)
+//@ -- C12: the hand-assembled query is exactly [old query &] SAMLRequest=esc(req) [&RelayState=esc(relayState)], i.e. every
+//@ -- dynamic string enters through url.QueryEscape; C13: the signed octets are exactly that string plus &SigAlg=esc(method)
+//@ assert@store[C12] RawQuery #1 (stored string) uses rv *url.URL, requestStr strings.Builder unsigned_query:
+//@    len(sp.SignatureMethod) == 0 ==> stored == redirectQuery(rv.RawQuery, requestStr.String(), relayState)
+//@ assert@call[C12,C13] SignString #1 (ctx *dsig.SigningContext, content string) uses rv *url.URL, requestStr strings.Builder signed_octets:
+//@    content == redirectQuery(rv.RawQuery, requestStr.String(), relayState) + "&SigAlg=" + url.QueryEscape(sp.SignatureMethod)
+//@ assert@store[C13] RawQuery #1 (stored string) uses rv *url.URL, requestStr strings.Builder signature_appended:
+//@    len(sp.SignatureMethod) > 0 ==> strings.HasPrefix(stored,
+//@      redirectQuery(rv.RawQuery, requestStr.String(), relayState) + "&SigAlg=" + url.QueryEscape(sp.SignatureMethod) + "&Signature=")
